@@ -203,6 +203,12 @@ func theWorld() *world {
 		add("[]*Transaction", reflect.TypeOf([]*types.Transaction{}), false)
 		add("Log", reflect.TypeOf(types.Log{}), false)
 		add("Txs", reflect.TypeOf(types.Txs{}), false)
+		// harness-local types: shapes libs/ser supports that no registered type of the node uses today (floats, big.Int by
+		// value, [0]/[1]/[2]byte, fixed-size arrays of elements, narrow ints, bools, pointers to scalars), so that the writers
+		// and decoders for them are exercised and tied to the model as well
+		for _, lt := range localTypes() {
+			add(lt.name, lt.rt, false)
+		}
 		for _, it := range ifaceTypes() {
 			if u.Ifaces[it] {
 				add(it.String(), it, it == reflect.TypeOf((*consensus.ConsensusMessage)(nil)).Elem())
@@ -332,6 +338,22 @@ func (e *exec) Exec(op string) string {
 		return "b=" + hx.Hex(b)
 	case "rdec":
 		return execRdec(wd, op, toks)
+	case "sobj":
+		return execSobj(wd, toks)
+	case "sstore":
+		return execSstore(toks)
+	case "apitest":
+		return execApitest()
+	case "regtest":
+		return execRegtest(wd)
+	case "sops":
+		return execSops(toks)
+	case "item":
+		return execItem(toks)
+	case "split":
+		return execSplit(toks)
+	case "wenc":
+		return execWenc(wd, toks)
 	case "dec":
 		name, _ := hx.Arg(toks, "root")
 		r := wd.byName[name]
@@ -342,6 +364,7 @@ func (e *exec) Exec(op string) string {
 		bs, _ := hx.Arg(toks, "bytes")
 		in := hx.UnHex(bs)
 		wt, _ := hx.Arg(toks, "wt")
+		via, _ := hx.Arg(toks, "via")
 		if r.HasMap && childWanted() && bigCount(in) {
 			// the known finding map-count-drives-allocation can end the process (runtime: out of memory is not a panic):
 			// inputs that may carry a large map count are executed by the same code in a child process
@@ -362,6 +385,12 @@ func (e *exec) Exec(op string) string {
 			ptr := reflect.New(r.RT)
 			var err error
 			switch {
+			case via != "":
+				var m interface{}
+				m, err = callDecodeMsg(via, in)
+				if m != nil {
+					ptr.Elem().Set(reflect.ValueOf(m))
+				}
 			case wt == "1" && r.Msg:
 				var m consensus.ConsensusMessage
 				m, err = consensus.VerifDecodeMsg(in)
@@ -521,6 +550,50 @@ func (P) Monitor(c *hx.CaseRun) []hx.Failure {
 		case "cenc":
 			if !strings.HasPrefix(ans, "same") {
 				fs = append(fs, hx.Failure{Monitor: "encode_reentrant", Class: "concurrent-encodings-interfere", Site: "libs/ser/encode.go", Msg: "values encoded by several goroutines at once differ from their sequential encodings: " + ans})
+			}
+		case "sstore":
+			// a storage slot read from the committed trie (cold cache) is the value that was written
+			if ans != "ok" {
+				fs = append(fs, hx.Failure{Monitor: "roundtrip", Class: "storage-slot-not-lossless", Site: "state/state_object.go:updateTrie", Msg: "a committed storage value does not read back: " + clipS(ans, 300)})
+			}
+		case "apitest":
+			if ans != "ok" {
+				fs = append(fs, hx.Failure{Monitor: "roundtrip", Class: "api:" + ans, Site: "libs/ser", Msg: "libs/ser API expectation failed: " + ans})
+			}
+		case "regtest":
+			if ans != "ok" {
+				fs = append(fs, hx.Failure{Monitor: "canonical", Class: "registry:" + ans, Site: "libs/ser/cdc.go", Msg: "the type registry does not keep interface prefixes unambiguous: " + ans})
+			}
+		case "sops":
+			if strings.HasPrefix(ans, "panic") {
+				fs = append(fs, hx.Failure{Monitor: "decode_no_panic", Class: "decode-panic:" + strings.TrimPrefix(ans, "panic "), Site: strings.TrimPrefix(ans, "panic "), Msg: "a Stream call panics: " + clipS(op, 200)})
+			}
+		case "item":
+			// the generic decoder accepts only canonical bytes: whatever it accepts re-encodes to the input
+			if strings.HasPrefix(ans, "ok ") {
+				bs, _ := hx.Arg(toks, "bytes")
+				if b2, _ := hx.Arg(hx.Tokens(ans), "b2"); b2 != bs {
+					fs = append(fs, hx.Failure{Monitor: "canonical", Class: "generic-decoder-noncanonical", Site: "libs/ser/decode.go:decodeInterface", Msg: "the generic decoder accepts bytes that re-encode differently: " + clipS(op, 200) + " -> " + clipS(ans, 200)})
+				}
+			}
+			if strings.HasPrefix(ans, "panic") {
+				fs = append(fs, hx.Failure{Monitor: "decode_no_panic", Class: "decode-panic:" + strings.TrimPrefix(ans, "panic "), Site: strings.TrimPrefix(ans, "panic "), Msg: "generic decode panics: " + clipS(op, 200)})
+			}
+		case "split":
+			// the two parsers of the format agree on every input (ground truth: Stream on the same bytes, in the executor)
+			if x, _ := hx.Arg(hx.Tokens(ans), "x"); x != "agree" {
+				fs = append(fs, hx.Failure{Monitor: "canonical", Class: "raw-parser-disagrees-with-stream:" + x, Site: "libs/ser/raw.go:readKind", Msg: "ser.Split and ser.Stream disagree: " + clipS(op, 200) + " -> " + clipS(ans, 200)})
+			}
+			if strings.HasPrefix(ans, "panic") {
+				fs = append(fs, hx.Failure{Monitor: "decode_no_panic", Class: "decode-panic:" + strings.TrimPrefix(ans, "panic "), Site: strings.TrimPrefix(ans, "panic "), Msg: "raw.go panics: " + clipS(op, 200)})
+			}
+		case "wenc":
+			// a failing writer yields an error and a prefix of the encoding, a sufficient one all of it; never a panic
+			if pf, _ := hx.Arg(hx.Tokens(ans), "pfx"); pf != "ok" && !strings.HasPrefix(ans, "panic") {
+				fs = append(fs, hx.Failure{Monitor: "roundtrip", Class: "writer-entry-point:" + pf, Site: "libs/ser/encode.go:toWriter", Msg: "io.Writer entry point: " + clipS(op, 200) + " -> " + ans})
+			}
+			if strings.HasPrefix(ans, "panic") && !c.Tags["nilcustom"] && !c.Tags["nilmapvalue"] {
+				fs = append(fs, hx.Failure{Monitor: "encode_total", Class: "encode-panic:" + strings.TrimPrefix(ans, "panic "), Site: strings.TrimPrefix(ans, "panic "), Msg: "encoding to a writer panics: " + clipS(op, 200)})
 			}
 		case "rdec":
 			// reader entry points: no panic ever; allocation bounded by the limit the caller passed
